@@ -30,7 +30,7 @@ def body(t):
 def gen_clause_args(rng):
     """one clause of the fragment under C11_clauses_after_the_table_exact: tag + five words (unused ones empty)"""
     from props import C01 as P1
-    k = rng.randrange(15)
+    k = rng.randrange(18)
     lit = lambda: rng.choice(["','", "'|'", "'\\t'", "'x'", "';'", "'a b'"])
     if k == 0:
         c = ["TS", P1.kwc(rng, "TABLESPACE"), rng.choice(["ts1", "Users_ts", "t_2"])]
@@ -60,8 +60,14 @@ def gen_clause_args(rng):
         c = ["CS", P1.kwc(rng, "COMMENT"), rng.choice(["'tbl'", "'a b c'", "'x-1'"])]
     elif k == 13:
         c = ["GE", rng.choice(["DISTSTYLE", "diststyle", "Backup", "SORTSTYLE"]), rng.choice(["EVEN", "ALL", "auto", "x1"])]
-    else:
+    elif k == 14:
         c = ["IT", P1.kwc(rng, "INTO"), rng.choice(["4", "32", "1"]), rng.choice(["BUCKETS", "buckets"])]
+    elif k == 15:
+        c = ["DK", rng.choice(["DISTKEY", "distkey", "Distkey"]), rng.choice(["a", "b", "col_1"])]
+    elif k == 16:
+        c = ["ON", P1.kwc(rng, "ON"), rng.choice(["fg1", "[PRIMARY]", "Main"])]
+    else:
+        c = ["TO", P1.kwc(rng, "TEXTIMAGE_ON"), rng.choice(["fg2", "[PRIMARY]"])]
     return c + [""] * (6 - len(c))
 
 
@@ -79,7 +85,7 @@ def theorem_forms(ctx, res):
         cl = []
         for _ in range(rng.choice([0, 1, 1, 2, 3, 5, 8])):
             c = gen_clause_args(rng)
-            if c[0] in ("IN", "TE", "GE") and cl and cl[-1][0] == "TS":
+            if c[0] in ("IN", "TE", "GE", "DK") and cl and cl[-1][0] == "TS":
                 continue                   # TABLESPACE x IN ... / TABLESPACE x word ... is one clause (tablespace properties) for the grammar
             cl.append(c)
         args = P2.clause_args(t, rng) + ["CLAUSES"] + [x for c in cl for x in c]
